@@ -120,6 +120,28 @@ Proof.
            end; reflexivity.
 Qed.
 
+(* ---- the open finding: with its flag on, the round trip fails on a template whose candidates ARE distinguishable ---- *)
+Definition q_on : hquirks := {| q_list_dict := true |}.
+Definition rf_t : tmpl := TOneOf [TList [TOneOf [TLeaf (LfInt 1); TLeaf (LfInt 2)] a0]; TDict []] a0.
+Definition rf_d : sdna := SSpace [PChoices [(1%nat, SSpace [])]].
+Lemma encode_decode_refuted :
+  wf_t rf_t /\ distinguishable std_cdec ex_w rf_t /\ valid (dna_spec ex_w rf_t) rf_d = true /\
+  sdecode std_cdec ex_w rf_t rf_d = Ok (TDict []) /\
+  sencode std_cenc ex_w q_on rf_t (TDict []) = Err E_TYPE /\       (* the code as it is *)
+  sencode std_cenc ex_w hq_none rf_t (TDict []) = Ok rf_d /\      (* as repaired *)
+  ~ avoids q_on rf_t.
+Proof.
+  split; [simpl; repeat split; repeat constructor|].
+  split.
+  { simpl. repeat split; auto; intros _ i j ci cj di dj vi vj Hij Hi Hj _ _ Hdi Hdj; pick_cands Hi Hj; inv Hi; inv Hj;
+      repeat match goal with
+             | H : sdecode _ _ (TLeaf _) _ = Ok _ |- _ => apply sdecode_leaf in H; subst
+             | H : sdecode _ _ (TDict _) _ = Ok _ |- _ => apply sdecode_dict in H; destruct H as [? ->]
+             | H : sdecode _ _ (TList _) _ = Ok _ |- _ => apply sdecode_list in H; destruct H as [? ->]
+             end; reflexivity. }
+  repeat split; try reflexivity. intros H. specialize (H eq_refl). discriminate.
+Qed.
+
 Example ex_hwf : hwf ex_t = true.
 Proof. reflexivity. Qed.
 Example ex_finite : finite (dna_spec ex_w ex_t) = true.
